@@ -316,7 +316,11 @@ def native_noise_requests(cl, label, cls, size, code_defo, noise_defo, noise_nam
             return '/new-errors returns HTTP %d' % resp.status_code
         got = json.loads(resp.data)
         want = np.asarray(em.generate(code, 1.0, rng=np.random.default_rng(0))).tolist()
-        if got != want:
+        if not noise_name.startswith('Pure'):
+            # a mixed channel is random even at p = 1: only "a Pauli on every qubit, length 2n" can be compared
+            if len(got) != 2 * code.n or any(not (got[i] or got[i + code.n]) for i in range(code.n)) or not set(got) <= {0, 1}:
+                return '/new-errors (p=1, %s) does not put a Pauli on every qubit: %s...' % (noise_name, got[:8])
+        elif got != want:
             return '/new-errors (p=1, %s, noise deformation %s, code deformation %s) returns %s..., the library noise model gives %s...' % (noise_name, noise_defo, code_defo, got[:8], want[:8])
         e = PauliErrorModel(1 / 3, 1 / 3, 1 / 3).generate(code, 0.1, rng=np.random.default_rng(rnd.randint(0, 10 ** 6)))
         syn = np.asarray(code.measure_syndrome(e)).tolist()
